@@ -173,6 +173,50 @@ def build_and_check(ctx: Ctx, name, nrows, ncols, writes, exe):
                 nontrivial=lambda c, o: True)
 
 
+def two_stage(ctx: Ctx, pool, rng):
+    """One Document object saved twice with edits in between; both files must read back what they were given."""
+    from numbers_parser import Document
+    for k in range(2 if ctx.quick else 10):
+        doc = Document(num_rows=6, num_cols=4)
+        t = doc.sheets[0].tables[0]
+        t2 = doc.sheets[0].add_table(f"T{k}", num_rows=3, num_cols=3)
+        texts = [v for v in pool if isinstance(v, str)]
+        first = {(r, c): rng.choice(pool) for r in range(3) for c in range(4)}
+        first.update({(5, 0): rng.choice(texts), (5, 1): rng.choice(texts)})
+        for (r, c), v in first.items():
+            t.write(r, c, v)
+        t2.write(0, 0, "other table text")
+        p1 = ctx.tmp / f"stage{k}_1.numbers"
+        doc.save(p1)
+        second = {(r, c): rng.choice(pool) for r in range(3, 5) for c in range(4)}
+        second.update({(0, 0): rng.choice(texts), (5, 2): "added after the first save", (7, 1): rng.choice(texts)})
+        for (r, c), v in second.items():
+            t.write(r, c, v)
+        t2.write(1, 1, "second text in the other table")
+        p2 = ctx.tmp / f"stage{k}_2.numbers"
+        doc.save(p2)
+        want1 = dict(first)
+        want2 = dict(first)
+        want2.update(second)
+        for label, path, want, want_other in (("first", p1, want1, {(0, 0): "other table text"}),
+                                             ("second", p2, want2, {(0, 0): "other table text", (1, 1): "second text in the other table"})):
+            try:
+                d = Document(path)
+            except Exception as e:  # noqa: BLE001
+                ctx.oracle_fail("save-reopen-raises", {"doc": f"two-stage {label}"}, f"{type(e).__name__}: {e}")
+                continue
+            tabs = d.sheets[0].tables
+            for tab, w in ((tabs[0], want), (tabs[1], want_other)):
+                for (r, c), v in w.items():
+                    ctx.count("oracle-write-save-reopen")
+                    got = tab.cell(r, c).value
+                    if not same_value(v, got):
+                        ctx.oracle_fail(f"value-changed-after-repeated-save:{type(v).__name__}",
+                                        {"doc": f"two-stage {label} save", "pos": [r, c], "value": repr(v)},
+                                        f"{label} saved file, table {tab.name} ({r},{c}): wrote {v!r}, read {got!r}")
+                    ctx.nontrivial(("two-stage", k, label, tab.name, r, c))
+
+
 def run(ctx: Ctx) -> int:
     from numbers_parser.cell import _pack_decimal128, _unpack_decimal128
     rng = ctx.rng
@@ -280,12 +324,21 @@ def run(ctx: Ctx) -> int:
             r = rng.choice([0, nr - 1, rng.randrange(nr)])
             c = rng.choice([0, nc - 1, rng.randrange(nc)])
             writes.append((r, c, v))
-        if si % 2 == 0:   # writes beyond the current bounds
-            writes.append((nr + rng.randrange(1, 4), nc - 1, "grown-row"))
-            if nc < 990:
-                writes.append((0, nc + rng.randrange(1, 4), 42))
-            writes.append((nr + 5 + (250 if si == 2 else 0), min(nc + 2, 999), 2.5))
+        # the shape exactly as created (row counts that are exact multiples of the tile size stay so) ...
         build_and_check(ctx, f"doc{si}_{nr}x{nc}", nr, nc, writes, exe)
+        # ... and the same table grown by writes beyond its current bounds
+        grown = list(writes)
+        grown.append((nr + rng.randrange(1, 4), nc - 1, "grown-row"))
+        if nc < 990:
+            grown.append((0, nc + rng.randrange(1, 4), 42))
+        grown.append((nr + 5 + (250 if si == 2 else 0), min(nc + 2, 999), 2.5))
+        if si % 2 == 0 or not ctx.quick:
+            build_and_check(ctx, f"doc{si}_{nr}x{nc}_grown", nr, nc, grown, exe)
+    # growth that lands exactly on a tile boundary
+    build_and_check(ctx, "grow_to_256", 3, 2, [(255, 1, "last row of the first tile"), (0, 0, 1.5)], exe)
+    build_and_check(ctx, "grow_to_512", 200, 1, [(511, 0, 7), (256, 0, "first row of the second tile")], exe)
+    # saving may be repeated: write, save, write more, save again, reopen the second file
+    two_stage(ctx, pool, rng)
     # a document holding the whole pool in one column (all types, many tiles when thorough)
     writes = [(i, 0, v) for i, v in enumerate(pool)]
     build_and_check(ctx, "pool", 2, 1, writes, exe)
